@@ -1,8 +1,9 @@
 #!/bin/sh
-# usage: tools/collect_r2.sh Cxx ... : copy round-2 seeded changes /tmp/seed/Cxx/out/{1,2,3} to seeded/Cxx-{4,5,6}
+# usage: OFF=3|6 tools/collect_r2.sh Cxx ... : copy round-2 seeded changes /tmp/seed/Cxx/out/{1,2,3} to seeded/Cxx-{4,5,6}
+OFF=${OFF:-3}
 for p in "$@"; do
   [ -d /tmp/seed/$p/out/3 ] || { echo "$p not ready"; continue; }
-  for i in 1 2 3; do d=/verif/seeded/$p-$((i+3)); mkdir -p $d; cp /tmp/seed/$p/out/$i/patch.diff /tmp/seed/$p/out/$i/demo_test.go /tmp/seed/$p/out/$i/meta.json $d/; done
+  for i in 1 2 3; do d=/verif/seeded/$p-$((i+OFF)); mkdir -p $d; cp /tmp/seed/$p/out/$i/patch.diff /tmp/seed/$p/out/$i/demo_test.go /tmp/seed/$p/out/$i/meta.json $d/; done
   git -C /repo worktree remove --force /tmp/seed/$p; git -C /repo branch -D seed-$p -q; rm -f /tmp/seed/$p.task.md /tmp/seed/$p.property.txt
   echo "$p collected"
 done
